@@ -16,8 +16,8 @@ G.used |= SKIP
 
 c_dict = Component("dictionary-vs-independent-reading",
                    "grammar-generated sentences (every production, depth <= 8, variants, repeated and empty blocks): as_dict(parse(src)) "
-                   "== dict_of_tokens(tokens(src)) including order of repeated statements; 120 sentences quick / 4000 thorough")
-N = 120 if TIER == "quick" else 4000
+                   "== dict_of_tokens(tokens(src)) including order of repeated statements; 120 sentences quick / 1000 thorough")
+N = 120 if TIER == "quick" else 1000
 n = 0
 while n < N or (G.all_rule_keys() - G.used and n < N + 300):
     n += 1
@@ -43,7 +43,7 @@ c_paths = Component("every-list-path",
                     "for each block path documented as a data-transform / execute list (http-get.client.metadata, http-get.server.output, "
                     "http-post.client.id, http-post.client.output, http-post.server.output, http-stager.server.output, "
                     "process-inject.execute, process-inject.transform-x86) and with a variant: random lists with argument-taking steps "
-                    "at exactly that path; as_dict == independent reading; 10 per path quick / 300 thorough")
+                    "at exactly that path; as_dict == independent reading; 10 per path quick / 60 thorough")
 
 
 def rand_list_text():
@@ -67,7 +67,7 @@ PATHS = {
     'http-post."default".client.output': lambda b: 'http-post "default" { client { output { %s } } }' % b,
 }
 for path, mk in PATHS.items():
-    for _ in range(10 if TIER == "quick" else 300):
+    for _ in range(10 if TIER == "quick" else 60):
         src = mk(rand_list_text())
         try:
             got = C2Profile.from_text(src).as_dict()
@@ -77,7 +77,7 @@ for path, mk in PATHS.items():
         except Exception as ex:   # noqa
             ok, w = False, {"source": src, "error": repr(ex)[:300]}
         c_paths.case((path, src), ok, sample=src[:80], witness=w)
-for _ in range(10 if TIER == "quick" else 300):
+for _ in range(10 if TIER == "quick" else 60):
     ex = rng.sample(['CreateThread;', 'SetThreadContext;', 'NtQueueApcThread-s;', 'RtlCreateUserThread;', 'CreateThread "ntdll!RtlUserThreadStart";',
                      'CreateRemoteThread "kernel32.dll!LoadLibraryA+0x10";'], rng.randrange(1, 5))
     src = "process-inject { execute { %s } transform-x86 { prepend %s; append %s; } }" % (" ".join(ex), profilegen.literal(rng)[0], profilegen.literal(rng)[0])
@@ -95,7 +95,7 @@ c_build = Component("builder-equals-parsed-text",
                     "random profiles assembled through the builder classes (global options, http-get/http-post with client/server blocks, "
                     "headers/parameters, data-transform lists with byte arguments, stage with transform blocks and beacon_gate, "
                     "process-inject with execute list, dns-beacon, post-ex, http-config): tree, as_text and as_dict equal those of the "
-                    "profile parsed from the builder's text and from hand-written text; 80 quick / 3000 thorough")
+                    "profile parsed from the builder's text and from hand-written text; 80 quick / 500 thorough")
 
 
 def norm(tree):
@@ -147,7 +147,7 @@ def rand_transform():
     return steps, " ".join(text)
 
 
-for i in range(80 if TIER == "quick" else 3000):
+for i in range(80 if TIER == "quick" else 500):
     prof = C2Profile()
     text = []
     try:
@@ -216,9 +216,9 @@ for i in range(80 if TIER == "quick" else 3000):
 # ---------------------------------------------------------------- modification / access interleavings
 c_track = Component("view-tracks-modifications",
                     "random interleavings of set_option / set_config_block modifications and as_dict()/properties accesses on one profile "
-                    "(4-12 steps, 100 histories quick / 4000 thorough): every access equals the dictionary of a profile freshly parsed "
+                    "(4-12 steps, 100 histories quick / 600 thorough): every access equals the dictionary of a profile freshly parsed "
                     "from the current text")
-for h in range(100 if TIER == "quick" else 4000):
+for h in range(100 if TIER == "quick" else 600):
     prof = C2Profile()
     ok, why = True, None
     try:
